@@ -49,6 +49,13 @@ theorem limiter_admits_at_most_from (l : Limiter) (c : Nat) (reqs : List Req) (l
     (admittedIn (clientTrace c (l.run reqs)) lo hi : Rat) ≤ l.cfg.burst + l.cfg.rate * (hi - lo) :=
   limiter_bound c reqs l lo hi he hwf hmono htracked hlh
 
+/-- The tracked-IP map never exceeds its capacity (`max_tracked_ips`, but at least the requesting
+client itself), and holds one bucket per client: eviction really makes room. -/
+theorem tracked_clients_bounded (l : Limiter) (ip : Nat) (now : Rat)
+    (hn : (keys l.buckets).Nodup) (hlen : l.buckets.length ≤ max l.cfg.cap 1) :
+    (keys (l.check ip now).1.buckets).Nodup ∧ (l.check ip now).1.buckets.length ≤ max l.cfg.cap 1 :=
+  check_capacity l ip now hn hlen
+
 /-- `check` never panics: every configuration (rate 0, burst 0, capacity 0, disabled), every state,
 every client, every clock reading, every eviction victim. -/
 theorem check_never_panics (l : Limiter) (ip : Nat) (now : Rat) (victim : Option Nat) :
